@@ -26,11 +26,14 @@ Targets == {"self", "ancestor", "missing"}
 Kinds(f) == {"truncate", "unbalance"}
             \* "number" rewrites the digits in the finished file (what follows moves when the spelling is longer);
             \* "field" replaces the value before the file is laid out, so only that field is wrong
-            \cup (IF IsPdf(f) THEN {"number", "field", "retarget", "dropobj", "dupobj", "corruptstream"} ELSE {})
+            \* "payload" damages what sits inside one stream (page content, ToUnicode program, font program) at a token
+            \* boundary and lays the file out around it: filters, /Length and offsets are those of a well-formed file
+            \cup (IF IsPdf(f) THEN {"number", "field", "retarget", "dropobj", "dupobj", "corruptstream", "payload"} ELSE {})
             \cup (IF HasInStream(f) THEN {"instream"} ELSE {})
             \cup (IF IsZip(f) THEN {"number", "dropmember", "dupmember", "corruptstream"} ELSE {})
             \cup (IF f = "html" THEN {"number"} ELSE {})
-Param(k) == CASE k \in {"number", "field", "instream"} -> Numbers [] k = "retarget" -> Targets [] OTHER -> {"-"}
+PayloadDamage == {"cut", "cutsp", "drop"}     \* cut at the boundary / cut leaving one white-space character / one token removed
+Param(k) == CASE k \in {"number", "field", "instream"} -> Numbers [] k = "retarget" -> Targets [] k = "payload" -> PayloadDamage [] OTHER -> {"-"}
 FaultSpace(f) == UNION {{[kind |-> k, site |-> s, param |-> p] : s \in 0..(K - 1), p \in Param(k)} : k \in Kinds(f)}
 
 VARIABLES fmt, faults, calls
